@@ -257,6 +257,7 @@ type ScaleCase struct {
 	Open  string `json:"open"`
 	Close string `json:"close"`
 	Atom  string `json:"atom"`
+	Tail  string `json:"tail,omitempty"`
 }
 
 func compileCost(src string) (time.Duration, error) {
@@ -288,7 +289,7 @@ func checkScale(c *ScaleCase) *Outcome {
 	}
 	var pts []pt
 	for d := 2; d <= 60; d += 2 {
-		src := strings.Repeat(c.Open, d) + c.Atom + strings.Repeat(c.Close, d)
+		src := strings.Repeat(c.Open, d) + c.Atom + strings.Repeat(c.Close, d) + c.Tail
 		if len(src) > 4096 {
 			break
 		}
@@ -325,13 +326,20 @@ func checkScale(c *ScaleCase) *Outcome {
 var c12scale = Register(&Prop[ScaleCase]{ID: "C12", Name: "compile-scaling", Check: checkScale})
 
 var scaleCases = []*ScaleCase{
-	{"[", "]", "1"}, {"(", ")", "1"}, {"{a:", "}", "1"}, {"[1:", "]", "1"}, {"f(", ")", "1"}, {"-", "", "1"}, {"!", "", "true"},
-	{"[[", "]]", "1"}, {"[(", ")]", "1"}, {"true ? 1 : (", ")", "1"}, {"1 + (", ")", "1"}, {"[1, ", "]", "1"}, {"a.b(", ")", "1"}, {"x[", "]", "0"}, {"[", "]", ""},
-	{"[", "", "1"}, {"[[1]:", "]", "1"}, {"{a:[", "]}", "1"},
+	// nests: open^d atom close^d
+	{"[", "]", "1", ""}, {"(", ")", "1", ""}, {"{a:", "}", "1", ""}, {"[1:", "]", "1", ""}, {"f(", ")", "1", ""}, {"-", "", "1", ""}, {"!", "", "true", ""},
+	{"[[", "]]", "1", ""}, {"[(", ")]", "1", ""}, {"true ? 1 : (", ")", "1", ""}, {"1 + (", ")", "1", ""}, {"[1, ", "]", "1", ""}, {"a.b(", ")", "1", ""}, {"x[", "]", "0", ""}, {"[", "]", "", ""},
+	{"[", "", "1", ""}, {"[[1]:", "]", "1", ""}, {"{a:[", "]}", "1", ""}, {"if(true, 1, ", ")", "1", ""}, {"x.f(", ")", "1", ""}, {"[x.f(", ")]", "1", ""},
+	// chains: atom suffix^d
+	{"", ".f()", "x", ""}, {"", ".a", "x", ""}, {"", "[0]", "x", ""}, {"", "(1)", "f", ""}, {"", " + 1", "1", ""}, {"", " ^ 2", "2", ""}, {"", " && true", "true", ""},
+	{"", " ? 1 : 2", "true", ""}, {"", ".f(1).g", "x", ""}, {"", ".f(x.g())", "x", ""}, {"", " == 1", "1", ""}, {"", ", 1", "[1", "]"}, {"", ", a: 1", "{a: 1", "}"}, {"", ", 1: 1", "[1: 1", "]"},
+	{"", ", 1", "f(1", ")"}, {"", " 1", "1", ""}, {"", "\"a\" + ", "\"b\"", ""}, {"", "'t' ", "'t'", ""}, {"", "`r`.f().", "x", "g"},
+	// prefix chains
+	{"x.f().", "", "g()", ""}, {"1 ? 2 : ", "", "3", ""}, {"true ? ", " : 0", "1", ""}, {"- -", "", "1", ""}, {"not ", "", "true", ""},
 }
 
 func TestC12(t *testing.T) {
-	R.Rule = "source strings up to 256 bytes (quick) / 4 KiB (thorough): random bytes, random runes, token soup from the lexicon, grammar-aware edits (insert / delete / duplicate / swap) of valid programs taken from a seed list and from the program generator, bracket nests to depth 12, valid programs; environments: none or Go host values built by reflection (structs, maps, slices, pointers, interface parts, nil parts, unsupported kinds); every call of Eval, Compile (two back ends), the Callable (same environment, a mismatching map, nil, a number, an unsupported struct) and Debug must return without panicking, with a value or an error, within 5 s (a slower call is repeated three times and reported only if slow every time; a call that does not return within 180 s aborts the run as a violation); scaling class: compile time against nesting depth 2..60 for 18 nest shapes must not grow by more than 2.5x per two levels over four consecutive steps from depth 12 on; non-trivial = input accepted, or rejected with more than one token"
+	R.Rule = "source strings up to 256 bytes (quick) / 4 KiB (thorough): random bytes, random runes, token soup from the lexicon, grammar-aware edits (insert / delete / duplicate / swap) of valid programs taken from a seed list and from the program generator, bracket nests to depth 12, valid programs; environments: none or Go host values built by reflection (structs, maps, slices, pointers, interface parts, nil parts, unsupported kinds); every call of Eval, Compile (two back ends), the Callable (same environment, a mismatching map, nil, a number, an unsupported struct) and Debug must return without panicking, with a value or an error, within 5 s (a slower call is repeated three times and reported only if slow every time; a call that does not return within 180 s aborts the run as a violation); scaling class: compile time against repetition count 2..60 for 45 nest, chain and prefix shapes must not grow by more than 2.5x per two levels over four consecutive steps from depth 12 on; non-trivial = input accepted, or rejected with more than one token"
 	R.Assume = []string{"termination is only observed under the stated budgets; Go stack exhaustion by inputs beyond 4 KiB is not probed"}
 	reportKnown(t, "C12")
 	runRegress(t, "C12")
